@@ -35,7 +35,7 @@ MANIFEST = {
     'text': ('Theorems over every label sequence of the per-call pipeline model: with the caller handed TimeoutError the write is '
              'disabled wherever the request was waiting; at most one write; a timer firing on a written, subscribed mux request on an '
              'open connection queues a discard that persists until written or the connection closes and names the request\'s own tag; '
-             'a request dropped from the send queue is never written. Tied to the real stacks by replaying each simulated call.'),
+             'a request dropped from the send queue is never written; a serial frame arrives complete only while the deadline has not passed. Tied to the real stacks by replaying each simulated call.'),
     'note': ('Trusted: Coq kernel; simulation world, scripted peers, tracing wrappers; frame write atomicity. Theorems closed under '
              'the global context.'),
     'technique': 'Coq invariant over a per-call transition system + trace-driven replay of full-stack executions with deadlines pinned at each hop',
@@ -268,6 +268,9 @@ def _labels(cid, x, obs, spec):
   wrote = None
   for rq in x['reqs']:
     items.append((rq['wseq'], rq['wat'], 'Write'))
+    if spec['stack'] == 'thrift' and rq.get('seq') is not None and rq['seq'] > rq['wseq']:
+      # the serial frame has arrived at the peer completely (later than the write started when the write is slow)
+      items.append((rq['seq'], rq['at'], 'WriteDone'))
     wrote = rq
   fired = False
   entered = None
